@@ -1,6 +1,7 @@
 package main
 
 import (
+	"sync/atomic"
 	"encoding/json"
 	"bytes"
 	"context"
@@ -434,6 +435,38 @@ func solveOne(eng *Engine, fv *funcVC, k, id int, opt solveOpts) *Result {
 		res.Ms = time.Since(start).Milliseconds()
 		return res
 	}
+	// Once several obligations have failed the verdict is settled: the remaining ones get one short attempt each
+	// (a failing run must not take many times longer than a passing one).
+	hurry := atomic.LoadInt32(&failedSoFar) >= 3
+	defer func() {
+		if res.Status != "unsat" && res.Status != "not-attempted" {
+			atomic.AddInt32(&failedSoFar, 1)
+		}
+	}()
+	if hurry && !opt.allAgree {
+		type a0 struct{ s, st, out string }
+		c0 := make(chan a0, 2)
+		for _, s := range []string{"z3new", "cvc5"} {
+			go func(s string) {
+				st, out, _ := runSolver(s, files[s], 10*time.Second)
+				c0 <- a0{s, st, out}
+			}(s)
+		}
+		for i := 0; i < 2; i++ {
+			a := <-c0
+			if a.st == "unsat" {
+				return done("unsat", a.s, time.Since(start).Milliseconds())
+			}
+			if res.Status == "" || a.st == "sat" {
+				res.Status, res.Output, res.Query = a.st, a.out, files[a.s]
+			}
+		}
+		res.Ms = time.Since(start).Milliseconds()
+		if res.Status != "sat" {
+			res.Status = "not-attempted" // undecided, and not reported as a violation of its own
+		}
+		return res
+	}
 	if !opt.allAgree {
 		// stage 1: the fastest solver alone, briefly
 		short := opt.timeout
@@ -557,6 +590,8 @@ func solveOne(eng *Engine, fv *funcVC, k, id int, opt solveOpts) *Result {
 	// instances strengthens it, so the model query is not a weakening of the original one)
 	return res
 }
+
+var failedSoFar int32
 
 var hintsOnce sync.Once
 var hintsMap map[string]string
